@@ -1,9 +1,10 @@
 (* Cache/PolicyArc.v — model of cache/src/policy/arc.rs.
    Four LruLists (front first): T1/T2 hold residents, B1/B2 are ghost lists.
    What the policy tracks as evictable residents is T1 ++ T2.  The model mirrors
-   the code as it is, including finding F-20 (on_admit's `replace` demotes a
-   resident into a ghost list yet the decision is Admit; `replace` can return
-   nothing while T1 is non-empty).  No proofs here. *)
+   the code as it is, including finding F-20-arc-admit (on_admit's `replace`
+   demotes a resident into a ghost list yet the decision is Admit).  `replace`
+   falls back to T1's tail when T2 is empty, so it returns nothing only when
+   T1 ++ T2 is empty.  No proofs here. *)
 From Fibre Require Import Common.Base Cache.PolicySpec Cache.PolicyLru Cache.PolicySlru
      Cache.PolicySieve.
 
@@ -29,7 +30,13 @@ Definition arc_replace (cap : N) (key_in_b2 : bool) (s : arc) : option (kc * arc
     match ll_pop_back (a_t2 s) with
     | Some ((k, c), t2') =>
         Some ((k, c), mkArc (a_p s) (a_t1 s) t2' (a_b1 s) (ghost_push cap k c (a_b2 s)))
-    | None => None
+    | None =>
+        (* T2 is empty: fall back to T1's tail *)
+        match ll_pop_back (a_t1 s) with
+        | Some ((k, c), t1') =>
+            Some ((k, c), mkArc (a_p s) t1' (a_t2 s) (ghost_push cap k c (a_b1 s)) (a_b2 s))
+        | None => None
+        end
     end.
 
 Definition arc_access (k c : N) (s : arc) : arc :=
